@@ -57,6 +57,81 @@ def partition_ok(ranges, N, facts):
     return True, "ranges chain 0 .. %s" % sym.show(N)
 
 
+def _piece_terms(p):
+    yield p["val"]
+    yield p["lv"]
+    for l in p["loops"]:
+        yield l["lo"]
+        yield l["hi"]
+    for g in p["guards"]:
+        yield g
+
+
+def _rewrite_piece(p, mapping):
+    q = dict(p)
+    q["val"] = sym.rewrite(p["val"], mapping)
+    q["lv"] = sym.rewrite(p["lv"], mapping)
+    q["loops"] = [dict(l, lo=sym.rewrite(l["lo"], mapping), hi=sym.rewrite(l["hi"], mapping)) for l in p["loops"]]
+    q["guards"] = [sym.rewrite(g, mapping) for g in p["guards"]]
+    return q
+
+
+def case_split(pieces, facts, max_conds=3):
+    """Pieces whose terms contain conditional values (c ? x : y) or remainders x % m are split into the cases of the
+    conditions; in each case the conditionals are replaced by the selected branch, the condition joins the facts, and
+    x % m is replaced by x - q*m for the q in {0, 1, -1} with 0 <= x - q*m <= m - 1 provable from the facts.
+    Yields (case description, facts, pieces).  Pieces without such terms give one case."""
+    import itertools
+    conds = []
+    for p in pieces:
+        for t in _piece_terms(p):
+            for st in sym.subterms(t):
+                if st[0] == "cond" and st[1] not in conds:
+                    conds.append(st[1])
+    if len(conds) > max_conds:
+        yield None, facts, pieces
+        return
+    for choice in itertools.product((True, False), repeat=len(conds)):
+        f2 = list(facts)
+        desc = []
+        for c, val in zip(conds, choice):
+            f2 += affine.guard_constraints([c if val else sym.unop("!", c)])
+            desc.append(("%s" if val else "!(%s)") % sym.show(c))
+        mapping = {}
+        for p in pieces:
+            for t in _piece_terms(p):
+                for st in sym.subterms(t):
+                    if st[0] == "cond":
+                        mapping[st] = st[2] if choice[conds.index(st[1])] else st[3]
+        ps2 = [_rewrite_piece(p, mapping) for p in pieces] if mapping else list(pieces)
+        mods = {}
+        for p in ps2:
+            for t in _piece_terms(p):
+                for st in sym.subterms(t):
+                    if st[0] == "op" and st[1] == "%" and st not in mods:
+                        x, m = st[2], st[3]
+                        for q in (0, 1, -1):
+                            r = sym.sub(x, sym.mul(I(q), m))
+                            if affine.prove_nonneg(r, f2) and affine.prove_nonneg(sym.sub(sym.sub(m, I(1)), r), f2):
+                                mods[st] = r
+                                break
+        if mods:
+            ps2 = [_rewrite_piece(p, mods) for p in ps2]
+        yield " and ".join(desc), f2, ps2
+
+
+def check_map_cases(pieces, out_array, in_array, N, sigma, shift, facts, extra_terms=(), want_op="="):
+    """check_map over every case of case_split; -> (True | False | None, detail, infos): None = shape not decidable"""
+    infos_all, details = [], []
+    for desc, f2, ps2 in case_split(pieces, facts):
+        ok, detail, infos = check_map(ps2, out_array, in_array, N, sigma, shift, f2, extra_terms, want_op)
+        infos_all += infos
+        if ok is not True:
+            return ok, (("in case %s: " % desc) if desc else "") + detail, infos_all
+        details.append(((desc + ": ") if desc else "") + detail)
+    return True, "; ".join(details), infos_all
+
+
 def check_map(pieces, out_array, in_array, N, sigma, shift, facts, extra_terms=(), want_op="="):
     """pieces: store pieces (one loop each, relative to the caller-selected loop) writing out_array[i].
     Returns (ok, detail, per-piece info)."""
@@ -71,12 +146,12 @@ def check_map(pieces, out_array, in_array, N, sigma, shift, facts, extra_terms=(
             return False, "operator %s where %s is expected (line %s)" % (p["op"], want_op, p["line"]), infos
         lt = linear_terms(p["val"])
         if lt is None:
-            return False, "value %s is not a linear combination" % sym.show(p["val"]), infos
+            return None, "value %s is not a linear combination of array elements" % sym.show(p["val"]), infos
         main = [(c, a) for c, a in lt if a[0] == "idx" and a[1] == in_array and a[2] != i]
         same = [(c, a) for c, a in lt if a[0] == "idx" and a[1] == in_array and a[2] == i]
         other = [(c, a) for c, a in lt if not (a[0] == "idx" and a[1] == in_array)]
         if other:
-            return False, "unexpected term %s" % sym.show(other[0][1]), infos
+            return None, "unexpected term %s" % sym.show(other[0][1]), infos
         if shift == ZERO and sigma == 1 and not main and same:
             main, same = same, []
         want_same = sum(c for c, kind in extra_terms if kind == "same")
@@ -101,7 +176,7 @@ def check_map(pieces, out_array, in_array, N, sigma, shift, facts, extra_terms=(
             return False, "source index %s may exceed N-1 on [%s,%s) (line %s)" % (sym.show(g), sym.show(lp["lo"]), sym.show(lp["hi"]), p["line"]), infos
         hi = lp["hi"] if lp["cmp"] == "<" else sym.add(lp["hi"], I(1)) if lp["cmp"] == "<=" else None
         if hi is None or sym.const_value(lp["step"]) != 1:
-            return False, "loop is not a unit-stride ascending range (line %s)" % p["line"], infos
+            return None, "loop is not a unit-stride ascending range (line %s)" % p["line"], infos
         gk = tuple(p["guards"])
         by_guard.setdefault(gk, []).append((lp["lo"], hi))
         infos.append({"line": p["line"], "range": "[%s,%s)" % (sym.show(lp["lo"]), sym.show(hi)), "src": sym.show(g), "wraps": c,
